@@ -369,10 +369,10 @@ func c19Registration(r *Run) {
 				}
 				n++
 				ord++
-				key := fmt.Sprintf("%s/store-%s#%d", fnKey(fn), fld.Name(), ord)
+				key := fmt.Sprintf("%s/store-%s#%d", fnKey(fn), fname(fld), ord)
 				_, fresh := st.Addr.(*ssa.FieldAddr).X.(*ssa.Alloc) // a struct literal being constructed
 				if !allowed[fnKey(fn)] && !fresh {
-					r.Bad("C19.W4", key, st.Pos(), "%s writes the middleware chain %s outside the registration functions: requests in flight can observe a chain changing under them", fnKey(fn), fld.Name())
+					r.Bad("C19.W4", key, st.Pos(), "%s writes the middleware chain %s outside the registration functions: requests in flight can observe a chain changing under them", fnKey(fn), fname(fld))
 					return
 				}
 				// registration appends in argument order: append(load same field, param...)
@@ -392,7 +392,7 @@ func c19Registration(r *Run) {
 							}
 						}
 						if sameField && isParam {
-							r.OK("C19.W4", key, st.Pos(), "%s = append(%s, new...): registration order is preserved", fld.Name(), fld.Name())
+							r.OK("C19.W4", key, st.Pos(), "%s = append(%s, new...): registration order is preserved", fname(fld), fname(fld))
 							r.OK("C19.W3", key+"/order", st.Pos(), "appends the new middlewares after the existing ones, in argument order")
 							return
 						}
